@@ -177,4 +177,19 @@ def settle (s : SfSt) : SfSt := run s (s.created.map Act.finish)
 
 def macroStep (s : SfSt) (items : List Act) : SfSt := settle (run s items)
 
+/-- would the action do anything here?  (the driver reports it so that the harness notices when the real
+run takes a step the model considers impossible) -/
+def enabled (s : SfSt) : Act → Bool
+  | .call c _ _ _ => (s.callers c).isNone
+  | .bodyStep e => match s.execs e with
+    | some x => !x.finished && x.remaining != 0
+    | none => false
+  | .finish e => match s.execs e with
+    | some x => !x.finished && x.remaining == 0
+    | none => false
+  | .cancel c => match s.callers c with
+    | none => true
+    | some ⟨_, .waiting⟩ => true
+    | some _ => false
+
 end CashewsVerif.SingleFlight
